@@ -11,9 +11,10 @@ Definition z_check_C18 (dflt : Z) := @check_C18 Z dflt Z.eqb.
 Definition z_check_index (dflt : Z) := @check_index Z dflt Z.eqb.
 Definition z_check_view (dflt : Z) := @check_view Z dflt Z.eqb.
 Definition z_scores_lobj := @scores_lobj Z.
+Definition z_lobj_wfb := @lobj_wfb Z.
 Definition z_model_request (dflt : Z) := @model_request Z dflt.
 Definition z_model_request_null (dflt : Z) := @model_request_null Z dflt.
 
 Extraction Language OCaml.
 Extraction "pyidx_model.ml" z_model_obs z_check_C18 z_check_index z_check_view z_scores_lobj z_model_request z_model_request_null seq_rows dense_stride
-  ssize_min ssize_max fmt_code view_dangling check_alloc model_moves alloc_steps.
+  ssize_min ssize_max fmt_code view_dangling check_alloc model_moves alloc_steps z_lobj_wfb.
